@@ -219,6 +219,34 @@ def run(ctx):
             ctx.ob(R6, fi.qual, f"fault {short}: the slot is returned", rel,
                    "" if rel else f"events {seq}: after an unclean exit nobody returns the slot (drain_conn swallows the error, so urlopen's resend path would lose it for good)",
                    witness=o.st.witness(), node=fi.node)
+    # the chunked reader is a generator: a consumer that stops iterating throws GeneratorExit in at the yield, inside the
+    # catcher. The rest of the body is still on the wire, so this is an unclean exit like any other.
+    rc = m.method(HR, "read_chunked")
+    rule_c = RespRule(fp_raises=())
+    seeds_c = _resp_seeds()
+    seeds_c[("self", "_connection")] = AV("obj", "conn", truth=True, none=False)
+    seeds_c[("self", "_pool")] = AV("obj", "pool", truth=True, none=False)
+    seeds_c[("self", "_original_response")] = AV("obj", "orig", truth=True, none=False)
+    seeds_c[("self", "chunked")] = const(True)
+    outs_c, it_c = run_function(m, rc, rule_c, HR, inline=inline, seeds=seeds_c, budget=600000)
+    ctx.states += it_c.budget.steps
+    aband = [o for o in outs_c if o.kind == "raise" and o.val.val == "builtins.GeneratorExit"]
+    swallowed = [o for o in outs_c if any("abandoned (GeneratorExit)" in t for _, t in o.st.path()) and not (o.kind == "raise" and o.val.val == "builtins.GeneratorExit")]
+    ctx.sites(R6, len(aband) + len(swallowed), 1, "exits of read_chunked after the consumer abandoned the generator")
+    seen_c = set()
+    for o in aband + swallowed:
+        seq = evs(o)
+        k = (o.kind, str(o.val.val) if o.kind == "raise" else "", seq)
+        if k in seen_c:
+            continue
+        seen_c.add(k)
+        ok_tr = o.kind == "raise" and o.val.val == "builtins.GeneratorExit"
+        ctx.ob(R6, rc.qual, f"abandoned chunked stream -> {outcome_name(o)}", ok_tr, "" if ok_tr else "GeneratorExit must propagate out of the generator", witness=o.st.witness(), node=rc.node)
+        closed_first = "conn_close" in seq and ("put" not in seq or seq.index("conn_close") < seq.index("put"))
+        ctx.ob(R6, rc.qual, "abandoned chunked stream: connection closed before any release", closed_first,
+               "" if closed_first else f"events {seq}: the unread rest of the body is still on the wire, yet the live connection goes back to the pool - the next request on it is answered with this response's bytes",
+               witness=o.st.witness(), node=rc.node)
+        ctx.ob(R6, rc.qual, "abandoned chunked stream: at most one release", seq.count("put") <= 1, f"events {seq}", witness=o.st.witness())
     # normal exits: released iff the stdlib response reports closed
     n_norm = 0
     for o in outs:
